@@ -272,6 +272,8 @@ class Interp:
             return a.t == b.t
         if isinstance(a, VAny) or isinstance(b, VAny):
             x, o = (a, b) if isinstance(a, VAny) else (b, a)
+            if x.kindtag == 'regex':
+                return False            # a compiled regular expression is no class, string or number
             if isinstance(o, VClass):
                 return self.any_eq(x, o)
             return False if isinstance(o, VObj) else self.any_eq(x, o)
@@ -356,7 +358,11 @@ class Interp:
         f = fr
         while f is not None:
             if name in f.locals:
-                return f.locals[name]
+                v = f.locals[name]
+                if isinstance(v, VUnion):
+                    v = self.resolve_union(v)
+                    f.locals[name] = v
+                return v
             f = f.closure
         # module level
         mod = fr.module
@@ -378,6 +384,23 @@ class Interp:
         if b is not None:
             return b
         raise Unsupported('unresolved name %s (line %s)' % (name, getattr(node, 'lineno', '?')))
+
+    def resolve_union(self, u):
+        """case split on the alternative (one path per alternative)"""
+        ctx = self.ctx
+        feasible = []
+        for i, (lab, val) in enumerate(u.alts):
+            feasible.append(i)
+        k = ctx.choose(len(feasible), 'union')
+        i = feasible[k]
+        ctx.assume(u.tag == i)
+        if not ctx.feasible():
+            raise Infeasible()
+        ctx.path_tags.append(('union', u.alts[i][0]))
+        import copy
+        val = copy.copy(u.alts[i][1])
+        val.origin = u          # passed on to a contract, the value is still seen as the union it was drawn from
+        return val
 
     def module_global(self, mod, name):
         if name == 'PY3':
@@ -522,6 +545,11 @@ class Interp:
             return VFunc('method', fi=fi, self=base.self, recv_cls=base.recv_cls)
         if isinstance(base, VFunc) and base.kind == 'extern':
             return VFunc('extern', name=base.name + '.' + name)
+        if isinstance(base, VAny) and name in ('pattern', 'flags') and (base.kindtag == 'regex'):
+            if name == 'flags':
+                return VInt(S.ReFlags(base.t))
+            txt = S.RePatText(base.t)
+            return VUnion(z3.If(S.RePatIsBytes(base.t), 0, 1), [('bytes', VStr(txt, 'b')), ('text', VStr(txt, 's'))])
         if isinstance(base, VAny):
             return VFunc('opaque_attr', base=base, name=name)
         if isinstance(base, VTuple):
@@ -532,7 +560,7 @@ class Interp:
         q = mod + '.' + name
         if mod == 'errno':
             return VInt(self.errno_const(name))
-        if mod == 're' and name in ('DOTALL', 'IGNORECASE', 'MULTILINE', 'VERBOSE', 'ASCII', 'UNICODE', 'I', 'S', 'M'):
+        if mod == 're' and name in ('DOTALL', 'IGNORECASE', 'MULTILINE', 'VERBOSE', 'ASCII', 'UNICODE', 'LOCALE', 'I', 'S', 'M', 'X', 'A', 'U', 'L'):
             import re as _re
             return VInt(int(getattr(_re, name)))
         if mod == 'signal' and name.startswith('SIG'):
@@ -606,6 +634,11 @@ class Interp:
             return VInt(z3.simplify(-self.as_int(v, 'unary minus')))
         if isinstance(node.op, ast.UAdd):
             return v
+        if isinstance(node.op, ast.Invert):
+            t = z3.simplify(self.as_int(v, 'bitwise not'))
+            if z3.is_int_value(t):
+                return VInt(~t.as_long())
+            return VInt(z3.simplify(-t - 1))
         raise Unsupported('unary op')
 
     def e_BoolOp(self, node, fr):
@@ -990,6 +1023,8 @@ class Interp:
                 return list(h.fields['items'])
             if h.kind == 'listiter':
                 return list(h.fields['items'])
+            if h.kind == 'enumerate':
+                return [VTuple([VInt(i), x]) for i, x in enumerate(self.concrete_items(h.fields['inner']))]
         raise Unsupported('iteration over %r needs a loop contract' % (it,))
 
     def e_Lambda(self, node, fr):
@@ -1165,6 +1200,9 @@ class Interp:
     # ---- contract application at a call site -----------------------------------------------
     def apply_contract(self, con, bound, fr, what):
         ctx = self.ctx
+        # a resolved alternative of a union is seen as the union again by a contract that declares the parameter so
+        up = getattr(con, 'union_params', ())
+        bound = {k: (x.origin if (k in up and getattr(x, 'origin', None) is not None) else x) for k, x in bound.items()}
         pre_heap = ctx.snapshot()
         pre_ghost = dict(ctx.ghost)
         pre = ContractView(ctx, pre_heap, pre_heap, bound, pre_ghost)
@@ -1505,6 +1543,13 @@ class Interp:
     def s_For(self, node, fr):
         spec, idx = self.loop_spec(fr, node)
         it = self.eval(node.iter, fr)
+        if spec is not None and getattr(spec, 'unroll_concrete', False):
+            # a list whose elements are all known on this path is iterated exactly; the loop contract is for the symbolic list
+            try:
+                if not any(isinstance(x, VHidden) for x in self.concrete_items(it)):
+                    spec = None
+            except Unsupported:
+                pass
         if spec is None:
             # concrete iteration: unroll
             try:
